@@ -131,6 +131,8 @@ impl RunCfg
 pub struct RunResult
 {
     pub verdict: Verdict,
+    /// what the user would read: the error value formatted with Display ("" on success)
+    pub error_text: String,
     pub log: Log,
     pub prints: Vec<PrintRec>,
     pub fs: Fs,
@@ -173,11 +175,12 @@ pub fn run_build_with(fs: &Fs, rc: &RunCfg, goal: &Option<String>, ruler_dir: &s
     let r = build::build(sys.clone(), &mut printer, params);
     observe_point(rc);
     let verdict = summarize(&r);
+    let error_text = match &r { Ok(()) => String::new(), Err(e) => format!("{}", e) };
     drop(r);
     let log = sys.take_log();
     let mut fs = sys.snapshot();
     fs.tick();
-    RunResult { verdict, log, prints: printer.recs, fs }
+    RunResult { verdict, error_text, log, prints: printer.recs, fs }
 }
 
 /// The instant at which the caller looks at the file system (in reality: the process exits).
@@ -208,11 +211,12 @@ pub fn run_clean_in(fs: &Fs, rc: &RunCfg, goal: &Option<String>, ruler_dir: &str
     let r = build::clean(sys.clone(), ruler_dir, vec![RULES_FILE.to_string()], goal.clone());
     observe_point(rc);
     let verdict = summarize(&r);
+    let error_text = match &r { Ok(()) => String::new(), Err(e) => format!("{}", e) };
     drop(r);
     let log = sys.take_log();
     let mut fs = sys.snapshot();
     fs.tick();
-    RunResult { verdict, log, prints: vec![], fs }
+    RunResult { verdict, error_text, log, prints: vec![], fs }
 }
 
 // ---------------------------------------------------------------------------
